@@ -40,6 +40,31 @@ def snapshot_ops(w, bets, ld):
     return ops
 
 
+def check_blotter(w, res, payload, where):
+    """C15 in live mode: the live list holds exactly the orders that are not complete; nothing twice"""
+    b = w.market.blotter
+    live = list(b._live_orders)
+    for o in b:
+        if not o.complete and o not in live:
+            res.violate("live-order-not-in-live-list", "%s: order %s (%s) is not complete but has left the live list" % (
+                where, getattr(o, "_mid", "?"), o.status.name), payload)
+        if live.count(o) > 1:
+            res.violate("duplicate-in-live-list", "%s: order %s twice in the live list" % (where, getattr(o, "_mid", "?")), payload)
+        if b[o.id] is not o:
+            res.violate("lookup:id", "%s: blotter lookup by id returns another object" % where, payload)
+    for o in live:
+        if o.id not in b:
+            res.violate("live-list-holds-unknown-order", "%s: the live list holds an order the blotter does not know" % where, payload)
+    # C03 finality in live mode: an order reported complete (with a bet id) never becomes live again (its sizes may still
+    # catch up with, or be overwritten by a stale view of, the exchange: that is C11's convergence, not a revival)
+    done = w.__dict__.setdefault("_done", set())
+    for o in b:
+        if o.complete and o.bet_id:
+            done.add(id(o))
+        elif id(o) in done:
+            res.violate("revived-after-complete", "%s: order %s is live again (%s)" % (where, getattr(o, "_mid", "?"), [x.name for x in o.status_log]), payload)
+
+
 def one_case(res, rng, case, seed):
     import livedomain as ld
     from flumine.order.order import OrderStatus
@@ -50,7 +75,17 @@ def one_case(res, rng, case, seed):
         w.place(rng.randint(1, 3), sidx=rng.randrange(2))
         steps = rng.randint(4, 14)
         stale = []
+
+        def stream_first():
+            # the exchange has processed the request; its order-stream update overtakes the REST response
+            if rng.random() < 0.35 and w.ex.bets:
+                bets_now = [dict(b) for b in w.ex.bets.values()]
+                w.ops.extend(snapshot_ops(w, bets_now, ld))
+                w.send_snapshot(bets_now)
+
+        w.stream_first = stream_first
         for _ in range(steps):
+            check_blotter(w, res, payload, "during the history")
             ev = rng.choice(["respond", "respond", "fill", "lapse", "snapshot", "snapshot", "stale", "request", "place"])
             if ev == "respond" and w.pending:
                 pkg = w.pending.pop(rng.randrange(len(w.pending)))
@@ -153,9 +188,11 @@ def one_case(res, rng, case, seed):
                             new._replacement = True
                             w.orders.append(new)
                             w.ops.append("RP:%d:%d:%d:%s" % (o._mid, new._mid, oc["new_bet"], common.tok(oc["new_size"])))
+        w.stream_first = None
         bets = [dict(b) for b in w.ex.bets.values()]
         w.ops += snapshot_ops(w, bets, ld)
         w.send_snapshot(bets)
+        check_blotter(w, res, payload, "at the quiescent point")
         # ---- agreement at the quiescent point
         for b in bets:
             o = w.local_for(b)
@@ -174,6 +211,8 @@ def one_case(res, rng, case, seed):
                 problems.append("all orders of the trade complete but the trade is %s" % o.trade.status.name)
             if problems:
                 sig = "snapshot-before-place-response" if (f14 and any(p.startswith("complete local False") for p in problems)) else "not-converged"
+                if b.get("cancelled_equals_remaining") and o.complete and not ex_complete:
+                    sig = "partial-cancel-overtaken-by-stream"
                 res.violate(sig, "order %d / bet %s after quiescence: %s (log %s)" % (o._mid, b["bet_id"], "; ".join(problems), [x.name for x in o.status_log]), payload)
         # ---- restart: a new framework instance, same exchange state
         w2 = ld.LiveWorld(random.Random(1), strategy_names=rng.choice([("alpha",), ("gamma",), ("alpha", "beta"), ("alpha", "beta")]), with_market=False)
@@ -212,13 +251,14 @@ def one_case(res, rng, case, seed):
                         e1 = w.market.blotter.get_exposures(st1, lookup)
                         e2 = m2.blotter.get_exposures(st2, lookup) if m2 else None
                         if e2 is not None and any(abs(e1[k] - e2[k]) > 0.011 for k in ("worst_possible_profit_on_win", "worst_possible_profit_on_lose")):
-                            res.violate("replaced-bet-not-adopted" if any("replaces" in b for b in bets) else "exposure-differs-after-restart", "strategy %s selection %d: exposures before the crash %s, after %s" % (
+                            res.violate("replaced-bet-not-adopted" if any("replaces" in b for b in bets) else
+                                        "partial-cancel-overtaken-by-stream" if any(b.get("cancelled_equals_remaining") for b in bets) else "exposure-differs-after-restart", "strategy %s selection %d: exposures before the crash %s, after %s" % (
                                 st2.name, sel, {k: e1[k] for k in e1 if k.startswith("worst_possible")}, {k: e2[k] for k in e2 if k.startswith("worst_possible")}), payload)
                         c1 = st1.get_runner_context(*lookup).live_trade_count
                         c2 = st2.get_runner_context(*lookup).live_trade_count
                         live1 = len({id(o.trade) for o in w.orders if o.trade.strategy is st1 and o.selection_id == sel and o.bet_id and not o.trade.complete and o.trade.status.name != "COMPLETE"})
                         if c2 > 0 and c1 == 0 and live1 == 0:
-                            res.violate("live-trades-differ-after-restart", "strategy %s selection %d: %d live trades after the restart, none before" % (st2.name, sel, c2), payload)
+                            res.violate("partial-cancel-overtaken-by-stream" if any(b.get("cancelled_equals_remaining") for b in bets) else "live-trades-differ-after-restart", "strategy %s selection %d: %d live trades after the restart, none before" % (st2.name, sel, c2), payload)
         finally:
             w2.shutdown()
         res.evaluations += 1
@@ -233,11 +273,55 @@ def one_case(res, rng, case, seed):
         w.shutdown()
 
 
-def run(res, tier, seed, model_ok, search):
-    res.rule = ("random interleavings of responses (success / failure / timeout / API errors), exchange-side fills and lapses, fresh, duplicated "
-                "and stale snapshots, further requests and placements for 1..5 orders of two strategies, synchronous and asynchronous "
-                "placement, replaced bets; then everything outstanding is answered and one snapshot of the exchange's bet table is processed: "
-                "agreement check; then a restart with the same exchange state (sometimes with one strategy missing). distinct = case index")
+def directed_partial_cancel(res, seed, fraction):
+    """a partial cancel whose stream update overtakes the REST response: LIMIT 8.0 resting, cancel_order(size_reduction=fraction x 8),
+    snapshot of the reduced bet, then the cancel response - the rest must keep resting locally (unless the amount cancelled equals
+    the remainder: recorded finding F21)"""
+    import livedomain as ld
+    w = ld.LiveWorld(random.Random(seed), strategy_names=("alpha",), truthful=True)
+    payload = {"case": "directed-partial-cancel-%s" % fraction, "seed": seed}
+    try:
+        from flumine.order.trade import Trade
+        from flumine.order import ordertype as ot
+        with w.market.transaction() as t:
+            o = Trade(w.market_id, 1, 0, w.strategies[0]).create_order("BACK", ot.LimitOrder(2.0, 8.0))
+            o._mid = 0
+            w.orders.append(o)
+            t.place_order(o, force=True)
+        w.execute(w.pending.pop(0), [{"status": "SUCCESS", "order_status": "EXECUTABLE"}])
+        red = round(8.0 * fraction, 2)
+        w.market.cancel_order(o, size_reduction=red, force=True)
+        w.stream_first = lambda: w.send_snapshot([dict(b) for b in w.ex.bets.values()])
+        w.execute(w.pending.pop(0), [{"status": "SUCCESS"}])
+        w.stream_first = None
+        w.send_snapshot()
+        b = list(w.ex.bets.values())[0]
+        check_blotter(w, res, payload, "after the cancel response")
+        first = (o.complete, o.status.name, o.size_remaining, b["remaining"])
+        if (o.complete != (b["status"] == "EXECUTION_COMPLETE")) and not b.get("cancelled_equals_remaining"):
+            res.violate("not-converged", "partial cancel of %s of 8.0, stream first: local status %s remaining %s, exchange %s remaining %s" % (
+                red, o.status.name, o.size_remaining, b["status"], b["remaining"]), payload)
+        # the rest is then matched at the exchange
+        if b["remaining"] > 0:
+            b.update(matched=b["remaining"], remaining=0.0, status="EXECUTION_COMPLETE")
+            w.send_snapshot()
+            check_blotter(w, res, payload, "after the rest was matched")
+        if o.complete != (b["status"] == "EXECUTION_COMPLETE") or abs(o.size_remaining - b["remaining"]) > 1e-9:
+            sig = "partial-cancel-overtaken-by-stream" if b.get("cancelled_equals_remaining") else "not-converged"
+            res.violate(sig, "partial cancel of %s of 8.0, stream first: local status %s remaining %s, exchange %s remaining %s" % (
+                red, o.status.name, o.size_remaining, b["status"], b["remaining"]), payload)
+        res.evaluations += 1
+    finally:
+        w.shutdown()
+
+
+def run_histories(res, tier, seed, model_ok, search):
+    for fraction in (0.25, 0.5, 0.75):
+        try:
+            directed_partial_cancel(res, seed, fraction)
+        except Exception:  # noqa
+            import traceback
+            res.violate("live-processing-crashed", traceback.format_exc()[-500:], {"case": "directed", "seed": seed})
     rng = random.Random(seed * 53 + 17)
     n = 4000 if (tier != "quick" or search) else 300
     lines, impls, payloads = [], [], []
@@ -257,10 +341,31 @@ def run(res, tier, seed, model_ok, search):
                 res.disagree({"request": line[:1500], "model": ans[:900], "implementation": impl[:900], "case": pl})
 
 
+def live_findings(tier, seed, search):
+    """the oracle findings of the live histories, for the checks of other properties that have a live-mode clause"""
+    sub = common.Result()
+    run_histories(sub, tier, seed, False, search)
+    return sub
+
+
+def run(res, tier, seed, model_ok, search):
+    res.rule = ("random interleavings of responses (success / failure / timeout / API errors), exchange-side fills and lapses, fresh, duplicated "
+                "and stale snapshots, further requests and placements for 1..5 orders of two strategies, synchronous and asynchronous "
+                "placement, replaced bets; then everything outstanding is answered and one snapshot of the exchange's bet table is processed: "
+                "agreement check; then a restart with the same exchange state (sometimes with one strategy missing). distinct = case index")
+    run_histories(res, tier, seed, model_ok, search)
+
+
 def replay(payload):
     rp = payload.get("replay") or {}
     res = common.Result()
     seed, case = rp.get("seed", 0), rp.get("case", 0)
+    if isinstance(case, str):
+        if case.startswith("directed-partial-cancel-"):
+            directed_partial_cancel(res, seed, float(case.rsplit("-", 1)[1]))
+        for v in res.violations:
+            print("ORACLE", v["signature"], v["what"])
+        return 1
     rng = random.Random(seed * 53 + 17)
     for c in range(case + 1):
         sub = random.Random(rng.getrandbits(32))
